@@ -59,12 +59,15 @@ UNCHECKED = [
     "atom_number/2 on number syntax that is not plain -?digits or -?digits.digits (0x1A, 1e10, 1.0Inf, ' 5', '+5')",
     "succ/2 and length/2 with negative integers, arg/3 with a non-compound second argument, unsupported call "
     "modes (ProbLog raises CallModeError there, which is a ProbLogError)",
+    "goals on which ProbLog raises OccursCheck (a variable shared between the term and the list of =.. / the "
+    "argument of arg/3 such that some unification order builds a cyclic term)",
     "documented-as-unsupported functions (gcd, msb, random, ...) and undocumented extras (atan2/2, gamma/1, +/1)",
 ]
 
 RULE = ("eval: bounded-exhaustive enumeration of every function/operator docs/source/prolog.rst lists as supported "
         "(31 unary, 21 binary, 5 constants) over integers -9..9,100,2^31,2^64 and floats -2.5,-0.5,0.0,0.5,1.0,2.5,"
-        "1e10 (all argument pairs for binary functions; thorough tier: 45 values), plus every function with an "
+        "1e10 (all argument pairs for binary functions; 8 more non-half floats for the unary functions; thorough tier: "
+        "49 values), plus every function with an "
         "unbound variable / atom / string / inf / nan operand, plus `Lit is Expr` with bound left sides; Hypothesis "
         "expression trees of call depth <= 4 over the same leaves. compare: the six comparison operators over all "
         "value pairs (exhaustive) and over random trees. inspect: every call mode declared by the check_mode strings "
@@ -555,6 +558,10 @@ def check_inspect(case):
     for alt in exp.alternatives:
         expected.append(sorted(ref.canonical([ref.resolve(["var", v], b) for v in qvars]) for b in alt))
     if r[0] == "error":
+        if r[1] == "OccursCheck":
+            # ProbLog unifies with an occurs check and reports would-be cyclic terms eagerly, Prolog's result there
+            # depends on the order of unification: not compared
+            return Outcome(features=feats, classes=["unchecked-occurs-check"])
         if exp.error_ok:
             return Outcome(nontrivial=True, features=feats, classes=["error-expected-and-raised"])
         return Outcome(nontrivial=True, features=feats, failure=Failure(
@@ -586,7 +593,9 @@ INTS_Q = list(range(-9, 10)) + [100, 2 ** 31, 2 ** 64]
 FLOATS_Q = [-2.5, -0.5, 0.0, 0.5, 1.0, 2.5, 1e10]
 INTS_T = sorted(set(list(range(-12, 13)) + [100, 127, 128, 255, -256, 2 ** 31 - 1, 2 ** 31, -2 ** 31, 2 ** 32, 2 ** 53,
                                            2 ** 53 + 1, 2 ** 63 - 1, 2 ** 63, -2 ** 63, 2 ** 64, -2 ** 64 - 1]))
-FLOATS_T = [-1e10, -2.5, -1.5, -1.0, -0.5, 0.0, 0.1, 0.5, 1.0, 1.5, 2.5, 3.0, 1e10, 1e100, 1.0e308]
+FLOATS_T = [-1e10, -2.7, -2.5, -1.5, -1.0, -0.5, -0.3, 0.0, 0.1, 0.5, 1.0, 1.5, 2.3, 2.5, 3.0, 1e10, 1e100, 1.0e308]
+# extra floats for the unary functions only: not halves, so that rounding/truncation/floor/ceiling all differ
+FLOATS_UNARY_EXTRA = [-3.5, -2.7, -1.5, -0.3, 0.3, 1.5, 2.7, 3.5]
 SPECIAL_OPERANDS = [["var"], ["atom", "foo"], ["str", "a"], ["const", "inf"], ["const", "nan"]]
 
 
@@ -623,8 +632,10 @@ def enumerate_eval(tier):
     vals = _values(tier)
     for c in ref.DOC_CONSTANTS:
         yield {"expr": ["const", c]}
+    seen = set(v[1] for v in vals if v[0] == "flt")
+    uvals = vals + [lit(v) for v in FLOATS_UNARY_EXTRA if v not in seen]
     for f in ref.DOC_UNARY:
-        for a in vals:
+        for a in uvals:
             yield {"expr": ["call", f, a]}
         for s in SPECIAL_OPERANDS:
             yield {"expr": ["call", f, s]}
@@ -798,7 +809,7 @@ def _shift_vars(t, d):
 # ------------------------------------------------------------------------------------------------ strategies
 
 _POOL_INTS = INTS_Q + [7, -7, 3, -3, 2, -2, 2 ** 53 + 1, 2 ** 63, -2 ** 31]
-_POOL_FLOATS = FLOATS_Q + [-1.0, 1.5, -1.5, 0.1, 3.0]
+_POOL_FLOATS = FLOATS_Q + [-1.0, 1.5, -1.5, 0.1, 3.0, -2.7, 2.3, -0.3, 1.25]
 
 
 def _leaf():
@@ -1008,17 +1019,17 @@ KNOWN_CLASSES = {
 
 SUBCHECKS = [
     SubCheck("eval", check_eval, strategy=_eval_strategy, enumerate=enumerate_eval,
-             budget={"quick": 8000, "thorough": 400000}, timeout={"quick": 10, "thorough": 20}, render=render,
+             budget={"quick": 8000, "thorough": 1200000}, timeout={"quick": 10, "thorough": 20}, render=render,
              exhaustive="X is f(a) / X is f(a,b) for the 31 unary and 21 binary documented functions and 5 constants "
-                        "over integers -9..9,100,2^31,2^64 and floats -2.5,-0.5,0.0,0.5,1.0,2.5,1e10 (thorough: 45 "
-                        "values), all argument pairs, minus pairs that would build an integer of more than 4096 bits; "
+                        "over integers -9..9,100,2^31,2^64 and floats -2.5,-0.5,0.0,0.5,1.0,2.5,1e10 (unary: 8 "
+                        "more non-half floats; thorough: 49 values), all argument pairs, minus pairs that would build an integer of more than 4096 bits; "
                         "plus unbound/atom/string/inf/nan operands and `Lit is Expr`"),
     SubCheck("compare", check_compare, strategy=_compare_strategy, enumerate=enumerate_compare,
-             budget={"quick": 3000, "thorough": 150000}, timeout={"quick": 10, "thorough": 20}, render=render,
+             budget={"quick": 3000, "thorough": 400000}, timeout={"quick": 10, "thorough": 20}, render=render,
              exhaustive="L op R for the 6 comparison operators over all pairs of the same value set, plus "
                         "unbound/atom/string/inf/nan/constant operands"),
     SubCheck("inspect", check_inspect, strategy=_inspect_strategy, enumerate=enumerate_inspect,
-             budget={"quick": 3000, "thorough": 150000}, timeout={"quick": 10, "thorough": 20}, render=render,
+             budget={"quick": 3000, "thorough": 400000}, timeout={"quick": 10, "thorough": 20}, render=render,
              exhaustive="the 10 type tests over 36 argument shapes; every declared mode of between/3, succ/2, plus/3, "
                         "length/2, functor/3, arg/3, =../2, atom_number/2 over small argument sets"),
 ]
